@@ -49,8 +49,11 @@ func (f *StringField) Read(r io.ReadSeeker, pg parquet.Page) error {
 		if err := binary.Read(rr, binary.LittleEndian, &x); err != nil {
 			return err
 		}
+		if x < 0 {
+			return fmt.Errorf("invalid string length: %d", x)
+		}
 		s := make([]byte, x)
-		if _, err := rr.Read(s); err != nil {
+		if _, err := io.ReadFull(rr, s); err != nil {
 			return err
 		}
 
